@@ -42,7 +42,9 @@ class World:
                        "refused_axis", "value_defined_right_operand", "sum_of_sums", "spectral_density_sum",
                        "even_odd_checked", "measure_checked", "copy_of_composite", "public_add_to_data", "template_dict_reused",
                        "windowed_transform_query", "query_inside_units_context", "same_numbers_under_different_units",
-                       "numerical_spectral_density_operand", "matrix_filled_inside_units_context"]
+                       "numerical_spectral_density_operand", "matrix_filled_inside_units_context",
+                       "temperatures_differing_by_less_than_a_percent", "composite_from_a_list_of_parameter_sets",
+                       "mixed_temperature_density_converted_without_temperature", "value_defined_function_built_under_units"]
     required_faults = ["different_temperature", "different_axis"]
     components = {
         "real": ["CorrelationFunction / SpectralDensity constructors, __add__, __iadd__, add_to_data(2), copy",
@@ -70,7 +72,7 @@ class World:
         sdrun = rng.random() < 0.3
         for _ in range(npre):
             ops.append(self._gen_new(rng, kf, sdrun))
-        kinds = ["new", "add", "add", "add", "iadd", "selfadd", "copy", "valdef", "measure", "measure", "evenodd", "addctx", "pubadd", "query", "sdfromcf", "cfm"]
+        kinds = ["new", "add", "add", "add", "iadd", "selfadd", "copy", "valdef", "measure", "measure", "evenodd", "addctx", "pubadd", "query", "sdfromcf", "cfm", "newlist", "sdtocf"]
         # swarm member: the same NUMBERS handed over under different units (30 means 30 1/cm here and 30 THz there)
         palette = rng.random() < 0.3
         if palette:
@@ -86,6 +88,13 @@ class World:
                     o["palette"] = rng.randrange(2)
                     o["T"] = 0
                 ops.append(o)
+            elif k == "newlist":
+                ops.append({"op": "newlist", "a": self._gen_new(rng, False, False), "b": self._gen_new(rng, False, False),
+                            "tcase": rng.choice(["same", "same", "close", "far"]), "unit": rng.randrange(len(UNITS))})
+            elif k == "sdtocf":
+                ops.append({"op": "sdtocf", "i": rng.randrange(16), "explicit": rng.random() < 0.4})
+            elif k == "valdef":
+                ops.append({"op": "valdef", "i": rng.randrange(16), "unit": rng.randrange(len(UNITS))})
             elif k == "cfm":
                 ops.append({"op": "cfm", "i": rng.randrange(16), "j": rng.randrange(16), "unit": rng.randrange(len(UNITS)), "unit2": rng.randrange(len(UNITS))})
             elif k == "query":
@@ -488,6 +497,79 @@ class Runner:
         self.ctx.ev(i, "query", a, q, u, raised)
         self.ctx.cov("query", A.kind, q, raised, min(len(A.comps), 3))
 
+    def op_newlist(self, i, op):
+        """A composite built in one go from a list of parameter sets: equal temperatures give the sum, temperatures that
+        differ (by a lot or by less than a percent) are refused."""
+        qr = self.qr
+        u = UNITS[op["unit"] % len(UNITS)]
+        specs, given = [], []
+        Ts = {"same": (300, 300), "close": (300, 302), "far": (300, 77)}[op["tcase"]]
+        for sub, T in zip((op["a"], op["b"]), Ts):
+            ftype = CF_TYPES[sub["type"] % len(CF_TYPES)]
+            raw = {"ftype": ftype, "T": T, "reorg": sub["reorg"]}
+            if ftype.startswith("Overdamped"):
+                raw["cortime"] = sub["cortime"]
+            else:
+                raw["freq"] = sub["freq"]
+                raw["gamma"] = sub["gamma"]
+            g = dict(raw)
+            for k in ENERGY_KEYS:
+                if k in g:
+                    g[k] = float(qr.convert(raw[k], "1/cm", to=u))
+            given.append(g)
+        try:
+            with qr.energy_units(u):
+                obj = qr.CorrelationFunction(self.axes[0], [dict(g) for g in given])
+                for g in given:
+                    sp = dict(g)
+                    for k in ENERGY_KEYS:
+                        if k in sp:
+                            sp[k] = float(self.m.convert_energy_2_internal_u(g[k]))
+                    specs.append(sp)
+            raised = None
+        except Exception as e:
+            raised = e
+        if op["tcase"] != "same":
+            self.ctx.fault("different_temperature")
+            if op["tcase"] == "close":
+                self.ctx.probe("temperatures_differing_by_less_than_a_percent")
+            check(raised is not None, "inadmissible-addition-accepted",
+                  lambda: "op %d: a composite of components at %r K was accepted" % (i, Ts))
+            self.ctx.ev(i, "newlist", op["tcase"], "refused")
+            return
+        if raised is not None:
+            raise Violation("construction-raises", "op %d: list of parameter sets %r under %r: %s: %s" % (i, given, u, type(raised).__name__, raised))
+        n = self.add_entry("cf", obj, [("spec", sp) for sp in specs], 300, 0)
+        self.good_adds += 1
+        self.ctx.probe("composite_from_a_list_of_parameter_sets")
+        self.ctx.ev(i, "newlist", "same", n, u)
+        self.ctx.cov("newlist", u, tuple(sp["ftype"] for sp in specs))
+
+    def op_sdtocf(self, i, op):
+        """A spectral density converted to a correlation function: with components declared at different temperatures
+        and no temperature given, the request is refused (the result would be a sum at mixed temperatures)."""
+        a = self.pick(op["i"], lambda e: e.kind == "sd" and all(c[0] == "spec" for c in e.comps))
+        if a is None:
+            return
+        A = self.pool[a]
+        Ts = set(c[1]["T"] for c in A.comps)
+        try:
+            if op.get("explicit"):
+                cf = A.real.get_CorrelationFunction(temperature=300)
+            else:
+                cf = A.real.get_CorrelationFunction()
+            raised = None
+        except Exception as e:
+            raised = e
+        if len(Ts) > 1 and not op.get("explicit"):
+            self.ctx.fault("different_temperature")
+            self.ctx.probe("mixed_temperature_density_converted_without_temperature")
+            check(raised is not None, "inadmissible-addition-accepted",
+                  lambda: "op %d: a spectral density with components declared at %r K was converted to a correlation function "
+                  "at %r K without a temperature being given" % (i, sorted(Ts), None if raised else cf.get_temperature()))
+        self.ctx.ev(i, "sdtocf", a, bool(op.get("explicit")), raised is None)
+        self.ctx.cov("sdtocf", len(Ts), bool(op.get("explicit")), raised is None)
+
     def op_sdfromcf(self, i, op):
         """A spectral density obtained numerically from a correlation function (cf.get_SpectralDensity()): a legal
         right-hand operand whose data are what they are, not what its parameters would give."""
@@ -550,11 +632,15 @@ class Runner:
         A = self.pool[a]
         data = numpy.array(A.real.data).copy()
         lamb = float(A.real.lamb)
-        with qr.energy_units("int"):
+        u = UNITS[op.get("unit", 0) % len(UNITS)]
+        with qr.energy_units(u):
             try:
-                new = qr.CorrelationFunction(self.axes[A.axis], dict(ftype="Value-defined", reorg=lamb, T=A.T), values=data.copy())
+                new = qr.CorrelationFunction(self.axes[A.axis], dict(ftype="Value-defined", reorg=float(self.m.convert_energy_2_current_u(lamb)), T=A.T),
+                                             values=data.copy())
             except Exception as e:
-                raise Violation("construction-raises", "op %d: value-defined: %s: %s" % (i, type(e).__name__, e))
+                raise Violation("construction-raises", "op %d: value-defined under %r: %s: %s" % (i, u, type(e).__name__, e))
+        if u not in ("int", "1/fs"):
+            self.ctx.probe("value_defined_function_built_under_units")
         n = self.add_entry("cf", new, [("values", data, lamb)], A.T, A.axis)
         self.ctx.ev(i, "valdef", a, n)
         self.ctx.cov("valdef", min(len(A.comps), 3))
